@@ -15,6 +15,11 @@ TRUSTED = ['numpy arithmetic exact on the dyadic grid (means over 1, 2, 4 or 8 a
 ASSUMPTIONS = ['idempotence and rigid-translation invariance are stated for corrected steps below half a cell']
 
 
+def pre_build():
+    import translate
+    return [translate.gen_drift_selection()]
+
+
 def gen_cases(rng, tier):
     n = {'quick': 260, 'thorough': 5000, 'search': 150}[tier]
     cases = []
